@@ -177,7 +177,7 @@ func checkC14(c *run.Ctx) {
 		penv0 := copyEnv(penv) // pristine copy: penv itself is handed to many Sign calls, the way SignSteps hands one map to every step
 		repo := gen.Pick(r, []string{"git@github.com:o/r.git", "https://x/y", "", "r"})
 		kinds := []string{"EdDSA", "EdDSA", "EdDSA", "ES512", "PS512", "ES256-signer"}
-		kp := all[kinds[i%len(kinds)]][0]
+		kp := all[kinds[(i/12)%len(kinds)]][0] // independent of the residues that choose the sweeps above
 
 		ok := true
 		observe := func(desc string, st *pipeline.CommandStep, pe map[string]string, rp string, k *keys.Pair) []byte {
@@ -401,6 +401,59 @@ func checkC14(c *run.Ctx) {
 						ok = false
 					}
 				}
+				break
+			}
+		}
+		// two steps that differ in a real matrix field still differ in payload when both carry the same unknown
+		// field that happens to be named like that real field (built in code, or renamed there by interpolation)
+		if mx := base.Matrix; mx != nil && ok {
+			for d, vs := range mx.Setup {
+				if len(mx.Setup) == 1 && d == "" && len(mx.Adjustments) == 0 {
+					break // the list shorthand has no room for unknown fields
+				}
+				a, b := util.DeepCopy(base), util.DeepCopy(base)
+				for _, t := range []*pipeline.CommandStep{a, b} {
+					if t.Matrix.RemainingFields == nil {
+						t.Matrix.RemainingFields = map[string]any{}
+					}
+					t.Matrix.RemainingFields["setup"] = map[string]any{"shadow": []any{"s"}}
+					t.Matrix.RemainingFields["adjustments"] = []any{}
+				}
+				b.Matrix.Setup[d] = append(append([]string{}, vs...), "one-more-value")
+				_, pa, ea := signStep(kp, a, repo, copyEnv(penv0))
+				_, pb, eb := signStep(kp, b, repo, copyEnv(penv0))
+				c.Eval(1)
+				if ea == nil && eb == nil && string(pa) == string(pb) {
+					c.Violation(id, map[string]any{"what": "two steps whose matrix setups differ have the same payload when both carry an unknown matrix field named `setup`", "payload": clip(string(pa), 3000)})
+					ok = false
+				}
+				c.Count("variant_differ:real-field-vs-same-named-unknown-field", 1)
+				break
+			}
+			for ai, adj := range mx.Adjustments {
+				if adj == nil || len(adj.With) == 0 || !ok {
+					continue
+				}
+				a, b := util.DeepCopy(base), util.DeepCopy(base)
+				for _, t := range []*pipeline.CommandStep{a, b} {
+					if t.Matrix.Adjustments[ai].RemainingFields == nil {
+						t.Matrix.Adjustments[ai].RemainingFields = map[string]any{}
+					}
+					t.Matrix.Adjustments[ai].RemainingFields["with"] = map[string]any{"shadow": "s"}
+					t.Matrix.Adjustments[ai].RemainingFields["skip"] = "shadow"
+				}
+				for k, v := range b.Matrix.Adjustments[ai].With {
+					b.Matrix.Adjustments[ai].With[k] = v + "-changed"
+					break
+				}
+				_, pa, ea := signStep(kp, a, repo, copyEnv(penv0))
+				_, pb, eb := signStep(kp, b, repo, copyEnv(penv0))
+				c.Eval(1)
+				if ea == nil && eb == nil && string(pa) == string(pb) {
+					c.Violation(id, map[string]any{"what": "two steps whose adjustment values differ have the same payload when both adjustments carry an unknown field named `with`", "payload": clip(string(pa), 3000)})
+					ok = false
+				}
+				c.Count("variant_differ:real-field-vs-same-named-unknown-field", 1)
 				break
 			}
 		}
